@@ -56,20 +56,21 @@ type caseFile struct {
 }
 
 type ctx struct {
-	name     string
-	r        *rng
-	seed     uint64
-	tier     string
-	out      string
-	files    []*caseFile
-	cur      *caseFile
-	shard    int
-	failures []failure
-	evals    int
-	distinct map[string]bool
-	dist     map[string]int
-	samples  []any
-	maxCases int
+	name      string
+	r         *rng
+	seed      uint64
+	tier      string
+	out       string
+	files     []*caseFile
+	cur       *caseFile
+	shard     int
+	failures  []failure
+	evals     int
+	distinct  map[string]bool
+	dist      map[string]int
+	samples   []any
+	maxCases  int
+	failKinds map[string]int
 }
 
 func newCtx(name string, seed uint64, tier, out string) *ctx {
@@ -114,8 +115,16 @@ func (c *ctx) sample(v any) {
 		c.samples = append(c.samples, v)
 	}
 }
+
+// fail records an oracle failure: at most 4 per (operation, what) so that one recurring failure (a known finding, say)
+// cannot crowd out a different one, 200 in all.
 func (c *ctx) fail(f failure) {
-	if len(c.failures) < 50 {
+	if c.failKinds == nil {
+		c.failKinds = map[string]int{}
+	}
+	k := f.Op + "|" + f.What
+	c.failKinds[k]++
+	if c.failKinds[k] <= 4 && len(c.failures) < 200 {
 		c.failures = append(c.failures, f)
 	}
 }
